@@ -25,6 +25,9 @@ type C18Case struct {
 	Mods    []string   `json:"mods"`    // require("<mod>") strings used in main.lua
 	Dofiles []string   `json:"dofiles"` // dofile("<path>") strings
 	Sep     string     `json:"sep"`     // RequirePathSeparator setting
+	// AfterString[i]: the i-th require is written after another string literal on its line
+	// (local s, m = "tag", require("mod"))
+	AfterString []bool `json:"afterString,omitempty"`
 	Events  []C18Event `json:"events"`
 }
 
@@ -49,6 +52,9 @@ func genC18(t *rapid.T) C18Case {
 		}
 	}
 	c.Mods = rapid.SliceOfNDistinct(rapid.SampledFrom(c18Mods), 1, 6, func(s string) string { return s }).Draw(t, "mods")
+	for range c.Mods {
+		c.AfterString = append(c.AfterString, rapid.IntRange(0, 3).Draw(t, "afterString") == 0)
+	}
 	c.Dofiles = rapid.SliceOfNDistinct(rapid.SampledFrom(c18Dofiles), 0, 2, func(s string) string { return s }).Draw(t, "dofiles")
 	c.Sep = rapid.SampledFrom([]string{".", ".", "/"}).Draw(t, "sep")
 	present := map[string]bool{}
@@ -116,6 +122,9 @@ func checkC18(c C18Case, env *Env) *Violation {
 	line := 0
 	for i, m := range c.Mods {
 		pre := fmt.Sprintf("local m%d = require(\"", i)
+		if i < len(c.AfterString) && c.AfterString[i] {
+			pre = fmt.Sprintf("local s%d, m%d = \"tag\", require(\"", i, i)
+		}
 		use := fmt.Sprintf("m%d.", i)
 		fmt.Fprintf(&main, "%s%s\")\n%sprobe()\n", pre, m, use)
 		refs = append(refs, ref{0, m, false, line, len(pre) + 1, len(use) + 1})
